@@ -38,7 +38,7 @@ func TestCorAskerCompletes(t *testing.T) {
 		}
 	})
 	server.Start()
-	sink := 0
+	var sink int64
 	for r := 0; r < rounds; r++ {
 		vlib.S().Eval("cor-asker-completes")
 		spin := r % 512
@@ -47,9 +47,11 @@ func TestCorAskerCompletes(t *testing.T) {
 		asker = fpgo.CorNewGenerics[int](func() {
 			for atomic.LoadInt32(&begin) == 0 {
 			}
+			local := 0
 			for i := 0; i < spin; i++ {
-				sink += i
+				local += i
 			}
+			atomic.AddInt64(&sink, int64(local))
 		})
 		asker.Start()
 		ret := make(chan interface{}, 1)
@@ -90,5 +92,5 @@ func TestCorAskerCompletes(t *testing.T) {
 		}
 	}
 	atomic.StoreInt32(&stop, 1)
-	_ = sink
+	_ = atomic.LoadInt64(&sink)
 }
